@@ -1,4 +1,7 @@
-import TTProofs.Lemmas.C07_Calc
+import TTProofs.Lemmas.C07_Trees
+import TTProofs.Lemmas.C07_LogRate
+import TTProofs.Lemmas.C07_Tril
+import TTProofs.Props.C06
 /-!
 # C07 — every change of variables reports its true log-Jacobian and inverse
 
@@ -32,8 +35,8 @@ theorem cumsum_dep (X : Nat → ℝ) (i j : Nat) (h : i < j) (t : ℝ) :
 /-- **cumsum_reported_eq_true**: the reported `0` is the true `log|det J|` -/
 theorem cumsum_reported_eq_true (x : Fin n → ℝ) :
     cumsumLd n (ext x) (cumsumFwd (ext x)) = Real.log |(jac (lift cumsumFwd) x).det| := by
-  rw [lift_logdet_lower cumsumFwd (fun _ _ => 1) cumsum_dep
-    (fun X i => hasDerivAt_csum_diag X i) x (fun _ => one_ne_zero)]
+  rw [lift_logdet_lower cumsumFwd (fun _ _ => 1) (fun X i j h _ t => cumsum_dep X i j h t)
+    (fun X i _ => hasDerivAt_csum_diag X i) x (fun _ => one_ne_zero)]
   simp [cumsumLd]
 
 /-- **cumsum_inv_fwd** -/
@@ -53,8 +56,8 @@ triangular with diagonal `yᵢ = exp(Σ_{j≤i} xⱼ)`) -/
 theorem cumsumexp_reported_eq_true (x : Fin n → ℝ) :
     cumsumexpLd n (ext x) (cumsumexpFwd (ext x)) = Real.log |(jac (lift cumsumexpFwd) x).det| := by
   rw [lift_logdet_lower cumsumexpFwd (fun X i => cumsumexpFwd X i)
-    (fun X i j h t => by simp only [cumsumexpFwd, csum_update_lt X h t])
-    cumsumexp_diag x (fun i => ne_of_gt (Real.exp_pos _))]
+    (fun X i j h _ t => by simp only [cumsumexpFwd, csum_update_lt X h t])
+    (fun X i _ => cumsumexp_diag X i) x (fun i => ne_of_gt (Real.exp_pos _))]
   unfold cumsumexpLd
   rw [sumTo_eq]
   refine Finset.sum_congr rfl fun i _ => ?_
@@ -105,8 +108,8 @@ theorem cumsumsoftplus_reported_eq_true (x : Fin n → ℝ) :
     cumsumsoftplusLd n (ext x) (cumsumsoftplusFwd (ext x))
       = Real.log |(jac (lift cumsumsoftplusFwd) x).det| := by
   rw [lift_logdet_lower cumsumsoftplusFwd (fun X i => sigm (csum X i))
-    (fun X i j h t => by simp only [cumsumsoftplus_eq, csum_update_lt X h t])
-    cumsumsoftplus_diag x (fun i => ne_of_gt (sigm_pos _))]
+    (fun X i j h _ t => by simp only [cumsumsoftplus_eq, csum_update_lt X h t])
+    (fun X i _ => cumsumsoftplus_diag X i) x (fun i => ne_of_gt (sigm_pos _))]
   unfold cumsumsoftplusLd
   rw [sumTo_eq]
   refine Finset.sum_congr rfl fun i _ => ?_
@@ -169,6 +172,132 @@ theorem log_reported_eq_true (x : Nat → ℝ) (i : Nat) (hx : 0 < x i) :
 theorem log_inv_fwd (x : Nat → ℝ) (i : Nat) (hx : 0 < x i) : logInv (logFwd x) i = x i :=
   Real.exp_log hx
 
+
+/-! ## node-height transforms (model of C06) as maps `ℝ^{n-1} → ℝ^{n-1}` -/
+section heights
+open TT.C06 TTProps.C06
+variable {T : BTree}
+
+/-- **ratio_reported_eq_true**: on every tree and for every parameter vector of the open domain,
+`log(y[_det_indices] − _bounds[n:-1]).sum(-1)` is the true `log|det J|` of the ratio transform.
+(The Jacobian is upper triangular in the post-order numbering, with diagonal
+`h_parent(i) − bound(i)` and `1` for the root.) -/
+theorem ratio_reported_eq_true (hT : WF n T) (hn : 2 ≤ n) (s : Nat → ℝ) (x : Fin (n - 1) → ℝ)
+    (hx : RatioDomOpen n (bounds n s (postorder n T)) (ext x)) :
+    ratioLd (ratioDetTerms n (bounds n s (postorder n T)) (detIndices n T)
+        (ratioFwd n (bounds n s (postorder n T)) (forwardIndices n T) (ext x)))
+      = Real.log |(jac (lift (ratioFwd n (bounds n s (postorder n T)) (forwardIndices n T))) x).det| := by
+  set B := bounds n s (postorder n T) with hB
+  have hpos : ∀ j, j < n - 2 →
+      0 < ratioFwd n B (forwardIndices n T) (ext x) (par n T j) - B (n + j) := by
+    intro j hj
+    have hm := par_mem hT hj
+    have h1 := fwd_bound_mono hT s _ hm
+    have hlt := (fwd_child_lt hT _ hm).2
+    have h2 := (ratio_valid_strict s (ext x) hT hn hx).1 (n + par n T j) (by omega) (by omega)
+    simp only [Nat.add_sub_cancel_left] at h2
+    have h1' : B (n + j) ≤ B (n + par n T j) := h1
+    linarith
+  have hdiag_ne : ∀ i : Fin (n - 1), ratioDiag n T B (ext x) i.val ≠ 0 := by
+    intro i
+    unfold ratioDiag
+    split
+    · exact ne_of_gt (hpos _ ‹_›)
+    · exact one_ne_zero
+  rw [lift_logdet_upper (n := n - 1) (ratioFwd n B (forwardIndices n T)) (ratioDiag n T B)
+    (fun X i j hji hi t => ratio_dep B hT hn X i j hji hi t)
+    (fun X i hi => ratio_diag B hT hn X i hi) x hdiag_ne]
+  rw [ratioLd_eq B hT, Fin.sum_univ_eq_sum_range (fun i => Real.log |ratioDiag n T B (ext x) i|) (n - 1)]
+  have hr : Finset.range (n - 1) = Finset.range ((n - 2) + 1) := by congr 1; omega
+  have hlast : Real.log |ratioDiag n T B (ext x) (n - 2)| = 0 := by
+    simp [ratioDiag]
+  rw [hr, Finset.sum_range_succ, hlast, add_zero]
+  refine Finset.sum_congr rfl fun j hj => ?_
+  have hj' : j < n - 2 := Finset.mem_range.mp hj
+  simp only [ratioDiag, if_pos hj']
+  rw [abs_of_pos (hpos j hj')]
+
+/-- **diff_reported_eq_true**: the difference transform (with `torch.max` or the smooth maximum — any
+`mx`) reports `0`, which is its true `log|det J|` at every point: the Jacobian is lower triangular
+with unit diagonal -/
+theorem diff_reported_eq_true (hT : WF n T) (mx : ℝ → ℝ → ℝ) (s : Nat → ℝ) (x : Fin (n - 1) → ℝ) :
+    (diffLd : ℝ) = Real.log |(jac (lift (diffFwd n mx s (postorder n T))) x).det| := by
+  rw [lift_logdet_lower (n := n - 1) (diffFwd n mx s (postorder n T)) (fun _ _ => 1)
+    (fun X i j hij _ t => diff_dep mx s hT X i j hij t)
+    (fun X i hi => diff_diag mx s hT X i hi) x (fun _ => one_ne_zero)]
+  simp [diffLd]
+
+/-- inverses of the node-height transforms: `TTProps.C06.ratio_inv_fwd_open`, `ratio_fwd_inv`,
+`diff_inv_fwd`, `diff_fwd_inv` (restated here for the record) -/
+theorem ratio_inv_fwd (hT : WF n T) (hn : 2 ≤ n) (s x : Nat → ℝ)
+    (hx : RatioDomOpen n (bounds n s (postorder n T)) x) :
+    ∀ j, j < n - 1 →
+      ratioInv n (bounds n s (postorder n T)) (indicesSorted n T)
+        (ratioFwd n (bounds n s (postorder n T)) (forwardIndices n T) x) j = x j :=
+  ratio_inv_fwd_open hT hn s x hx
+
+theorem diff_inv_fwd_any (hT : WF n T) (mx : ℝ → ℝ → ℝ) (s x : Nat → ℝ) :
+    ∀ j, j < n - 1 →
+      diffInv n mx s (postorder n T) (diffFwd n mx s (postorder n T) x) j = x j :=
+  TTProps.C06.diff_inv_fwd mx s x hT
+
+end heights
+
+
+/-! ## LogDifferenceRateTransform (as repaired, F03) -/
+section lograte
+open TT.C06
+variable {T : BTree}
+
+/-- **lograte_reported_eq_true**: on every tree and at all positive rates, `-x.log().sum(-1)` is the
+true `log|det J|` of `y_j = log r_{c_j} − log r_{p_j}` (pre-order pairs; root rate 1): with the
+columns ordered by the pre-order the Jacobian is triangular with diagonal `1/r` -/
+theorem lograte_reported_eq_true (hT : WF n T) (x : Fin (2 * n - 2) → ℝ) (hx : ∀ i, 0 < x i) :
+    lograteLd (2 * n - 2) (ext x) (lograteFwd (2 * n - 2) (preorder n T) (ext x))
+      = Real.log |(jac (lift (lograteFwd (2 * n - 2) (preorder n T))) x).det| := by
+  rw [show preorder n T = T.pre n from rfl, lograte_true_logdet hT x hx]
+  unfold lograteLd
+  rw [sumTo_eq]
+  simp only [ext_apply, TT.trans_log_real]
+
+/-- the unrepaired formula `-y.sum(-1)` is refuted on the 3-taxon tree `((T0,T1),T2)` at rates
+`(1, 1, 1, e)` (node 3 = the cherry): it returns `1`, the true value is `-1` -/
+theorem lograte_old_refuted :
+    let T3 : BTree := .node (.node (.leaf 0) (.leaf 1)) (.leaf 2)
+    let x : Fin 4 → ℝ := fun i => if i.val = 3 then Real.exp 1 else 1
+    lograteLdOld 4 (ext x) (lograteFwd 4 (preorder 3 T3) (ext x))
+      ≠ Real.log |(jac (lift (lograteFwd 4 (preorder 3 T3))) x).det| := by
+  intro T3 x
+  have hT : WF 3 T3 := by unfold WF; decide
+  have hx : ∀ i, 0 < x i := by
+    intro i; simp only [x]; split
+    · exact Real.exp_pos 1
+    · exact one_pos
+  have htrue := lograte_true_logdet (n := 3) hT x hx
+  have e : preorder 3 T3 = [(4, 3), (3, 0), (3, 1), (4, 2)] := by decide
+  rw [show preorder 3 T3 = T3.pre 3 from rfl] at e
+  rw [show preorder 3 T3 = T3.pre 3 from rfl, htrue]
+  have hsum : ∑ i : Fin 4, Real.log (x i) = 1 := by
+    simp [Fin.sum_univ_four, x]
+  rw [hsum]
+  have hold : lograteLdOld 4 (ext x) (lograteFwd 4 (T3.pre 3) (ext x)) = 1 := by
+    unfold lograteLdOld
+    rw [sumTo_eq, Fin.sum_univ_four]
+    simp only [lograteFwd, e, TT.trans_log_real]
+    simp [ext, x]
+  rw [hold]
+  norm_num
+
+end lograte
+
+/-! ## TrilExpDiagonalTransform -/
+
+/-- **tril_inv_fwd**: every entry `(r, c)`, `c ≤ r`, of the lower triangle is recovered by the
+inverse (`log` of the diagonal, the rest copied), at its `torch.tril_indices` position -/
+theorem tril_inv_fwd (x : Nat → ℝ) {r c : Nat} (hc : c ≤ r) :
+    trilInv (trilFwd x) (trilPos r c) = x (trilPos r c) :=
+  TT.C07.tril_inv_fwd x hc
+
 /-! ## TransformedParameter -/
 
 /-- **tp_call_current**: whatever sequence of updates of the wrapped parameter happened (each
@@ -218,5 +347,31 @@ theorem tp_call_twice {α β : Type} (f : α → α) (ld : α → α → β) (tp
 
 example : (TP.call (fun x : Nat => x + 1) (fun x y => x * y)
     ([5, 7].foldl TP.setX (TP.init (fun x => x + 1) 1))).1 = 7 * 8 := by decide
+
+
+/-! ## non-vacuity -/
+section examples
+open TT.C06 TTProps.C06
+
+/-- the open ratio domain is inhabited on a heterochronous 4-taxon tree: ratios 1/2, 1/2, root 5 -/
+example : ∃ x : Fin 3 → ℝ, RatioDomOpen 4 (bounds 4 s4 (postorder 4 T4)) (ext x) := by
+  refine ⟨fun i => x4 i.val, ?_⟩
+  have hext : ∀ j, j < 3 → ext (n := 3) (fun i => x4 i.val) j = x4 j := by
+    intro j hj; simp [ext, hj]
+  refine ⟨fun j hj => ?_, ?_⟩
+  · rw [hext j (by omega)]; exact dom4.ratios j hj
+  · rw [hext (4 - 2) (by norm_num)]; exact dom4.root
+
+/-- positive rates exist on every tree -/
+example (hT : WF 4 T4) :
+    lograteLd 6 (ext (n := 6) fun _ => 2) (lograteFwd 6 (preorder 4 T4) (ext (n := 6) fun _ => 2))
+      = Real.log |(jac (lift (lograteFwd 6 (preorder 4 T4))) (fun _ : Fin 6 => (2 : ℝ))).det| :=
+  lograte_reported_eq_true (n := 4) hT (fun _ => 2) (fun _ => by norm_num)
+
+example : cumsumexpLd 2 (ext (n := 2) ![1, 2]) (cumsumexpFwd (ext (n := 2) ![1, 2]))
+    = Real.log |(jac (lift cumsumexpFwd) (![1, 2] : Fin 2 → ℝ)).det| :=
+  cumsumexp_reported_eq_true _
+
+end examples
 
 end TTProps.C07
